@@ -1,3 +1,220 @@
-(* Property C09 (placeholder while the proofs are being built). *)
+(* Property C09: min-cost flow solvers return feasible flows of minimum cost and agree.
+   Only statements + `exact <lemma>`; proofs are in C09/Mcf*.v.
+   Models: C09/Mcf.v (min_cost_flow, solve_assignment), C09/NetSimplex.v (network_simplex);
+   specification and certificates: C09/McfSpec.v, C09/AssignSpec.v. *)
 From Coq Require Import List ZArith.
-From SV Require C09.Mcf C09.McfSpec.
+Import ListNotations.
+From SV Require Import C09.Mcf C09.McfSpec C09.NetSimplex.
+From SV Require Import C09.AssignSpec.
+From SV Require C09.McfCert C09.McfAug C09.McfBF C09.McfProofs C09.McfInfeasible C09.NetSimplexProofs C09.AssignProofs.
+Import Mcf McfSpec.
+Open Scope Z_scope.
+
+(* ================= min_cost_flow ================= *)
+
+(* (1) whenever the model answers OPTIMAL, the per-arc flow it ends with (flow_k = residual[2k+1]) respects every
+   arc's capacity, conserves flow at every inner node, ships exactly `demand` out of the source and into the
+   sink, and is integral (Z).  Hypotheses: non-negative capacities, non-negative demand. *)
+Theorem C09_mcf_feasible : forall n arcs s t d k,
+  McfProofs.caps_ok arcs = true -> 0 <= d ->
+  mcf_run n arcs s t d = Some k -> k_status k = OPTIMAL ->
+  feasible n arcs (demand_b s t d) (McfAug.flows (k_res k)).
+Proof. exact McfProofs.mcf_run_feasible. Qed.
+Print Assumptions C09_mcf_feasible.
+
+(* the invariant behind it, for every final state (OPTIMAL or INFEASIBLE):
+   residual[2k] + residual[2k^1] = cap_k, both >= 0, cost bookkeeping, conservation with the amount shipped so far *)
+Theorem C09_mcf_invariant : forall n arcs s t d k,
+  McfProofs.caps_ok arcs = true -> 0 <= d ->
+  mcf_run n arcs s t d = Some k ->
+  McfAug.ResInv arcs (k_res k) /\
+  k_cost k = flow_cost arcs (McfAug.flows (k_res k)) /\
+  (forall w, netout arcs (McfAug.flows (k_res k)) w = demand_b s t (k_flow k) w) /\
+  0 <= k_flow k <= d /\
+  (k_status k = OPTIMAL -> k_flow k = d) /\
+  (k_status k = INFEASIBLE -> k_flow k < d /\ bellman_ford n arcs (k_res k) s t = BFNoPath).
+Proof. exact McfProofs.mcf_run_sound. Qed.
+Print Assumptions C09_mcf_invariant.
+
+(* (2) reported cost = sum over the arcs of cost * flow *)
+Theorem C09_mcf_cost : forall n arcs s t d k,
+  McfProofs.caps_ok arcs = true -> 0 <= d ->
+  mcf_run n arcs s t d = Some k -> k_cost k = flow_cost arcs (McfAug.flows (k_res k)).
+Proof. exact McfProofs.mcf_run_cost. Qed.
+Print Assumptions C09_mcf_cost.
+
+(* (1)+(2) for the public Result: the returned dictionary is the (u,v)-pooled form of a feasible per-arc flow of
+   exactly `demand` units (hence within the pooled capacities), and the objective is that flow's cost *)
+Theorem C09_mcf_public : forall n arcs s t d r,
+  McfProofs.caps_ok arcs = true -> 0 <= d ->
+  mcf n arcs s t d = Some r -> r_status r = OPTIMAL ->
+  exists f, feasible n arcs (demand_b s t d) f /\ pooled arcs f (r_flows r) /\ r_cost r = flow_cost arcs f.
+Proof. exact McfProofs.mcf_feasible_cost. Qed.
+Print Assumptions C09_mcf_public.
+
+(* every augmenting path is a chain of residual edges from source to sink using each arc at most once *)
+Theorem C09_mcf_path : forall n arcs res s t path d,
+  bellman_ford n arcs res s t = BFPath path d ->
+  McfAug.chain arcs s path t /\ NoDup (map fst path) /\ (forall e, In e path -> (fst e < length arcs)%nat).
+Proof. exact McfBF.bellman_ford_path. Qed.
+Print Assumptions C09_mcf_path.
+
+(* (4) INFEASIBLE is sound: the nodes Bellman-Ford leaves at finite distance form a saturated cut of capacity
+   k_flow < demand (n-1 rounds reach everything reachable in the residual graph), so no feasible flow exists.
+   Together with (1): OPTIMAL => a feasible flow exists, INFEASIBLE => none does. *)
+Theorem C09_mcf_infeasible_sound : forall n arcs s t d k,
+  valid_input n arcs s t d = true ->
+  mcf_run n arcs s t d = Some k -> k_status k = INFEASIBLE ->
+  infeasible n arcs (demand_b s t d).
+Proof. exact McfInfeasible.mcf_infeasible_sound. Qed.
+Print Assumptions C09_mcf_infeasible_sound.
+
+Theorem C09_mcf_public_infeasible : forall n arcs s t d r,
+  valid_input n arcs s t d = true ->
+  mcf n arcs s t d = Some r -> r_status r = INFEASIBLE ->
+  infeasible n arcs (demand_b s t d).
+Proof. exact McfInfeasible.mcf_public_infeasible. Qed.
+Print Assumptions C09_mcf_public_infeasible.
+
+(* (5) stretch, NOT proved: successive shortest paths keep "no negative residual cycle", hence OPTIMAL answers are
+   minimum-cost flows for every input without negative cycles (pi0 = potentials certifying that the input has none;
+   boolean-checkable).  Missing: Bellman-Ford with at most n-1 in-place rounds computes exact shortest distances
+   when no negative cycle exists (needs walks / cycle removal), so that the distances are potentials for the next
+   residual graph and the parent walk terminates; the rest (closure of the reached set, path edges are residual
+   edges, augmentation only adds reverses of path edges) is in McfInfeasible.v / McfBF.v.  Until then optimality is
+   established per run: C09_mcf_optimal_partial below + McfSpec.optimal_check evaluated inside coqc on every
+   implementation answer (potentials recomputed by the harness, untrusted). *)
+Definition C09_mcf_optimal_full_statement : Prop :=
+  forall n arcs s t d pi0 k,
+    valid_input n arcs s t d = true ->
+    reduced_b (pot pi0) arcs (map (fun _ => 0) arcs) = true ->
+    mcf_run n arcs s t d = Some k -> k_status k = OPTIMAL ->
+    min_cost n arcs (demand_b s t d) (McfAug.flows (k_res k)).
+
+Definition C09_mcf_terminates_full_statement : Prop :=
+  forall n arcs s t d pi0,
+    valid_input n arcs s t d = true ->
+    reduced_b (pot pi0) arcs (map (fun _ => 0) arcs) = true ->
+    mcf_run n arcs s t d <> None.
+
+(* what is proved: the model's OPTIMAL answer is a minimum-cost flow as soon as SOME potentials pass the reduced-cost
+   test on its final residual graph (feasibility needs no test: theorem (1)) *)
+Theorem C09_mcf_optimal_partial : forall n arcs s t d k pi,
+  valid_input n arcs s t d = true ->
+  mcf_run n arcs s t d = Some k -> k_status k = OPTIMAL ->
+  reduced_b (pot pi) arcs (McfAug.flows (k_res k)) = true ->
+  min_cost n arcs (demand_b s t d) (McfAug.flows (k_res k)).
+Proof. exact McfInfeasible.mcf_optimal_partial. Qed.
+Print Assumptions C09_mcf_optimal_partial.
+
+(* ================= solve_assignment ================= *)
+
+(* (6) solve_assignment = min_cost_flow on the bipartite network Mcf.assign_arcs, which has unit capacities; whenever it
+   answers OPTIMAL the assignment vector is a matching of min(n,m) pairs: one entry per row, -1 or a column index,
+   no column twice, exactly min(n,m) rows assigned *)
+Theorem C09_assignment : forall M r,
+  solve_assignment M = Some r -> s_status r = OPTIMAL ->
+  Forall (fun a => a_cap a = 1) (assign_arcs (AssignSpec.rows M) (AssignSpec.cols M) M) /\
+  AssignSpec.matching (AssignSpec.rows M) (AssignSpec.cols M) (s_assign r).
+Proof. exact AssignProofs.assignment_matching. Qed.
+Print Assumptions C09_assignment.
+
+(* the checker evaluated on every implementation answer: the assignment's flow on that network is a min-cost flow of
+   min(n,m) units and the objective is its cost *)
+Theorem C09_assignment_check_sound : forall M asg cost pi,
+  AssignSpec.assignment_check M asg cost pi = true ->
+  length asg = AssignSpec.rows M /\
+  min_cost (2 + AssignSpec.rows M + AssignSpec.cols M) (assign_arcs (AssignSpec.rows M) (AssignSpec.cols M) M)
+           (AssignSpec.assign_b (AssignSpec.rows M) (AssignSpec.cols M))
+           (AssignSpec.asg_flow (AssignSpec.rows M) (AssignSpec.cols M) asg) /\
+  cost = flow_cost (assign_arcs (AssignSpec.rows M) (AssignSpec.cols M) M)
+                   (AssignSpec.asg_flow (AssignSpec.rows M) (AssignSpec.cols M) asg).
+Proof. exact AssignProofs.assignment_check_sound. Qed.
+Print Assumptions C09_assignment_check_sound.
+
+(* ================= network_simplex ================= *)
+
+(* (7) the final gate: OPTIMAL => no artificial arc carries flow, the objective is the sum of cost * flow over the
+   original arcs, the solution is the pooled dictionary of the original arcs' flows *)
+Theorem C09_ns_gate : forall n arcs sup max_iter r,
+  NetSimplex.network_simplex n arcs sup max_iter = Some r -> NetSimplex.r_status r = NetSimplex.OPTIMAL ->
+  (arcs = [] /\ forallb (fun x => x =? 0) sup = true /\ NetSimplex.r_sol r = Some [] /\ NetSimplex.r_obj r = 0)
+  \/ exists fl it,
+       NetSimplex.ns_run n arcs sup max_iter = Some (NetSimplex.OPTIMAL, fl, it) /\
+       (forall x, In x (skipn (length arcs) fl) -> x <= 0) /\
+       NetSimplex.r_sol r = Some (NetSimplex.flow_dict arcs fl []) /\
+       NetSimplex.r_obj r = flow_cost arcs fl /\
+       (Forall (fun x => 0 <= x) (firstn (length arcs) fl) -> pooled arcs fl (NetSimplex.flow_dict arcs fl [])).
+Proof. exact NetSimplexProofs.ns_gate. Qed.
+Print Assumptions C09_ns_gate.
+
+(* ================= certificates (both solvers) ================= *)
+
+(* (3) a feasible flow for which node potentials exist with non-negative reduced cost
+   cost + pi(tail) - pi(head) on every residual edge of positive residual capacity is of minimum cost among all
+   feasible flows for the same supplies / demand *)
+Theorem cert_optimal : forall n arcs b f pi,
+  valid_arcs n arcs = true ->
+  feasible n arcs b f -> reduced_ok pi arcs f ->
+  forall f', feasible n arcs b f' -> flow_cost arcs f <= flow_cost arcs f'.
+Proof. exact McfCert.cert_optimal. Qed.
+Print Assumptions cert_optimal.
+
+Theorem C09_cert_check_sound : forall n arcs b f pi,
+  cert_check n arcs b f pi = true -> min_cost n arcs b f.
+Proof. exact McfCert.cert_check_sound. Qed.
+Print Assumptions C09_cert_check_sound.
+
+(* the checker run on every implementation answer: pooled dictionary + objective are those of a min-cost flow *)
+Theorem C09_optimal_check_sound : forall n arcs b d cost f pi,
+  optimal_check n arcs b d cost f pi = true -> optimal_answer n arcs b d cost.
+Proof. exact McfCert.optimal_check_sound. Qed.
+Print Assumptions C09_optimal_check_sound.
+
+(* a node set that must ship out more than its outgoing capacity (or take in more than its incoming capacity):
+   no feasible flow exists *)
+Theorem C09_cut_check_sound : forall n arcs b S,
+  cut_check n arcs b S = true -> infeasible n arcs b.
+Proof. exact McfCert.cut_check_sound. Qed.
+Print Assumptions C09_cut_check_sound.
+
+(* ================= non-vacuity ================= *)
+Definition ex_arcs : list arc :=
+  [(0%nat, 2%nat, 1, 1); (0%nat, 3%nat, 1, 3); (2%nat, 3%nat, 1, 1); (2%nat, 1%nat, 1, 3); (3%nat, 1%nat, 1, 1);
+   (0%nat, 2%nat, 1, 5); (3%nat, 2%nat, 2, -1)].
+
+Example C09_mcf_nonvacuous_ex1 :
+  McfProofs.caps_ok ex_arcs = true /\ valid_input 4 ex_arcs 0 1 2 = true /\
+  exists k, mcf_run 4 ex_arcs 0 1 2 = Some k /\ k_status k = OPTIMAL /\ k_cost k = 8 /\ k_iters k = 2.
+Proof. split; [reflexivity|]. split; [reflexivity|]. eexists. vm_compute. repeat split. Qed.
+
+Example C09_mcf_nonvacuous_ex2 :
+  exists k, mcf_run 4 ex_arcs 0 1 3 = Some k /\ k_status k = INFEASIBLE /\ k_flow k = 2.
+Proof. eexists. vm_compute. repeat split. Qed.
+
+Example C09_cert_nonvacuous_ex3 :
+  match mcf 4 ex_arcs 0 1 2 with
+  | Some r => optimal_check 4 ex_arcs (demand_b 0 1 2) (r_flows r) (r_cost r) [1; 1; 0; 1; 1; 0; 0] [0; 5; 2; 3]
+  | None => false
+  end = true.
+Proof. vm_compute. reflexivity. Qed.
+
+Example C09_cut_nonvacuous_ex4 :
+  cut_check 4 ex_arcs (demand_b 0 1 3) [true; false; true; true] = true.
+Proof. vm_compute. reflexivity. Qed.
+
+Example C09_ns_nonvacuous_ex5 :
+  exists r, NetSimplex.network_simplex 4 ex_arcs [2; -2; 0; 0] 1000000 = Some r /\
+            NetSimplex.r_status r = NetSimplex.OPTIMAL /\ NetSimplex.r_obj r = 8 /\ NetSimplex.r_iters r = 6.
+Proof. eexists. vm_compute. repeat split. Qed.
+
+Example C09_assignment_nonvacuous_ex6 :
+  exists r, solve_assignment [[4; 2; 8]; [4; 3; 7]; [3; 1; 6]] = Some r /\ s_status r = OPTIMAL /\
+            s_assign r = [0; 2; 1] /\ s_cost r = 12.
+Proof. eexists. vm_compute. repeat split. Qed.
+
+Example C09_mcf_optimal_partial_nonvacuous_ex7 :
+  exists k, mcf_run 4 ex_arcs 0 1 2 = Some k /\ valid_input 4 ex_arcs 0 1 2 = true /\
+            reduced_b (pot [0; 5; 2; 3]) ex_arcs (McfAug.flows (k_res k)) = true /\
+            reduced_b (pot [0; 3; 1; 2]) ex_arcs (map (fun _ => 0) ex_arcs) = true.
+Proof. eexists. vm_compute. repeat split. Qed.
